@@ -132,6 +132,13 @@ public:
     cxxPPassemblage pp_save; cxxSSassemblage ss_save;
     if (has_pp) pp_save = e->Rxn_pp_assemblage_map[-2];
     if (has_ss) ss_save = e->Rxn_ss_assemblage_map[-2];
+    // everything else the own step() call could touch is put back as well (entities -2 and the scratch entities -1)
+    std::map<int, cxxSolution> sol_save = e->Rxn_solution_map;
+    std::map<int, cxxExchange> exch_save = e->Rxn_exchange_map;
+    std::map<int, cxxSurface> surf_save = e->Rxn_surface_map;
+    std::map<int, cxxGasPhase> gas_save = e->Rxn_gas_phase_map;
+    std::map<int, cxxKinetics> kin_save = e->Rxn_kinetics_map;
+    LDBLE patm_save = e->patm_x, tc_save = e->tc_x;
     e->set_reaction(-2, use_mix, e->use.Get_kinetics_in() ? TRUE : FALSE);
     int rc = e->step(1.0);
     std::cout << "A " << step << " " << rc << " " << hx::hex("H") << ":" << hx::hexd((double)e->total_h_x) << " " << hx::hex("O") << ":"
@@ -163,6 +170,10 @@ public:
     std::cout << "\n";
     if (has_pp) e->Rxn_pp_assemblage_map[-2] = pp_save;
     if (has_ss) e->Rxn_ss_assemblage_map[-2] = ss_save;
+    e->Rxn_solution_map = sol_save; e->Rxn_exchange_map = exch_save; e->Rxn_surface_map = surf_save;
+    e->Rxn_gas_phase_map = gas_save; e->Rxn_kinetics_map = kin_save;
+    e->patm_x = patm_save; e->tc_x = tc_save;
+    e->set_reaction(-2, use_mix, e->use.Get_kinetics_in() ? TRUE : FALSE);      // pointers into the restored maps
   }
   static void drive(IPhreeqc* ip, const std::vector<std::string>& w) {
     Phreeqc* e = ip->PhreeqcPtr;
@@ -185,6 +196,7 @@ public:
       e->state = REACTION;
       e->incremental_reactions = inc;
       int err0 = e->get_input_errors();
+      size_t errlen0 = std::string(ip->GetErrorString()).size();
       if (e->set_use() == FALSE) { std::cout << "drive nouse\n"; return; }
       if (nsteps <= 0) {                        // count_steps as reactions() computes it
         nsteps = 1;
@@ -211,7 +223,7 @@ public:
         e->run_reactions(-2, kin_time, use_mix, 1.0);
         if (inc) { e->rate_sim_time_start += kin_time; e->rate_sim_time = e->rate_sim_time_start; } else e->rate_sim_time = kin_time;
         e->saver();
-        if (e->get_input_errors() != err0) { std::cout << "drive error " << hx::hex(ip->GetErrorString()) << "\n"; return; }
+        if (e->get_input_errors() != err0 || std::string(ip->GetErrorString()).size() != errlen0) { std::cout << "drive error " << hx::hex(ip->GetErrorString()) << "\n"; return; }
         std::cout << "B " << e->reaction_step << " " << hx::hex(raw2(e)) << "\n";
       }
       std::cout << "drive end " << hx::hex(ip->GetWarningString()) << "\n";
